@@ -86,6 +86,39 @@ def queries(root):
     return res
 
 
+def mutate_and_compare(root, warm_first=True):
+    """the copy must be a LIVE graph: with neighbor caching on, warm every memo, edit the links through the public API
+    (retarget an edge, unlink a pair, add an edge), and ask again - the cached answers must equal the uncached ones.
+    Returns None or a description of the first stale answer."""
+    from edgegraph.structure import Vertex, TwoEndedLink
+    from edgegraph.builder import explicit
+    seen, order = canon_walk(root)
+    verts = [o for o in order if isinstance(o, Vertex)]
+    links = [o for o in order if isinstance(o, TwoEndedLink) and len(o.vertices) == 2 and None not in o.vertices]
+    flag = Vertex.NEIGHBOR_CACHING
+    Vertex.NEIGHBOR_CACHING = True
+    try:
+        if warm_first:
+            queries(root)                              # warm; otherwise the memos are exactly what the pickle carried
+        if links:
+            e = links[0]
+            e.v2 = e.v1                                  # retarget: the edge becomes a self-loop
+        if len(links) > 1:
+            a, b = links[1].vertices
+            explicit.unlink(a, b)
+        if len(verts) > 1:
+            explicit.link_directed(verts[0], verts[-1])
+        cached = queries(root)
+        Vertex.NEIGHBOR_CACHING = False
+        truth = queries(root)
+    finally:
+        Vertex.NEIGHBOR_CACHING = flag
+    for k in truth:
+        if cached.get(k) != truth[k]:
+            return f"after editing the loaded copy, {k} answers {cached.get(k)} with caching on and {truth[k]} with caching off"
+    return None
+
+
 def main():
     path, loader, caching = sys.argv[1], sys.argv[2], sys.argv[3] == "1"
     from edgegraph.structure import Vertex
@@ -97,7 +130,12 @@ def main():
     else:
         import lib.structh  # noqa: F401  (classes of the harness are pickled by reference)
         root = pickle.loads(data)
-    print(json.dumps({"snapshot": snapshot(root), "queries": queries(root)}))
+    # first of all (the statistics table of this process knows no uid yet): a second copy, edited BEFORE anything is asked of
+    # it here - its memos are exactly what the pickle carried
+    root2 = dill.loads(data) if loader == "dill" else pickle.loads(data)
+    stale = mutate_and_compare(root2, warm_first=False)
+    out = {"snapshot": snapshot(root), "queries": queries(root), "stale": stale}
+    print(json.dumps(out))
 
 
 if __name__ == "__main__":
